@@ -166,12 +166,18 @@ def _wrappers(sp, rng):
     def minus_scaled(a):
         # f - a*g with g = 0.5 f  ==  (1 - a/2) f, written the way users write differences of scaled functionals
         return ('-(%g*-)' % a, lambda f: f - a * (0.5 * f), lambda r: (lambda x: (1 - 0.5 * a) * r(x)), lambda t: t)
+    def rvec():
+        # f * v = f(v . x) with a vector without zero entries (mixed signs on real spaces)
+        v = pos_el(sp, rng, 0.5, 2.0)
+        if not util.is_pspace(sp):
+            v = sp.element(np.asarray(v) * rng.choice([-1.0, 1.0], size=sp.shape))
+        return ('*v', lambda f: f * v, lambda r: (lambda x: r(v * x)), lambda t: t)
     return [lambda: left(0.25), lambda: left(3.0), lambda: left(1.0), lambda: right(2.0), lambda: right(1.5), lambda: right(-0.5),
             lambda: right(1.0), transl, lambda: plus(1.25), lambda: qp(0.7, True), lambda: qp(0.0, True), lambda: qp(0.4, False),
-            lambda: minus_scaled(0.5)]
+            lambda: minus_scaled(0.5), rvec]
 
 
-PAIR_KINDS = (0, 1, 3, 5, 7, 8, 9, 10, 12)   # indices into _wrappers: every wrapper class, both scalings with two factors
+PAIR_KINDS = (0, 1, 3, 5, 7, 8, 9, 10, 12, 13)   # indices into _wrappers: every wrapper class, both scalings with two factors
 
 
 def composed(sp, rng, n, depth=(2, 3), pairs=()):
